@@ -90,7 +90,7 @@ func (c C13Case) expected() string {
 	return strings.Join(out, "\n") + "\n"
 }
 
-var yamlOther = []string{"---", "meta:", "  author: \"someone\"", "  description: \"tests for rule\"", "  enabled: true", "  name: 932100.yaml", "tests:", "    desc: \"a test\"", "    stages:", "      - input:", "          dest_addr: 127.0.0.1", "          headers:", "            Host: localhost", "          uri: \"/get?x=test_identifier\"", "          data: \"title test_id without colon\"", "        output:", "          log:", "            expect_ids: [932100]", "    # a comment", "", "  ", "          version: HTTP/1.1   ", "    tags: [a, b]", "      - stage:"}
+var yamlOther = []string{"---", "meta:", "  author: \"someone\"", "  description: \"tests for rule\"", "  enabled: true", "  name: 932100.yaml", "tests:", "    desc: \"a test\"", "    stages:", "      - input:", "          dest_addr: 127.0.0.1", "          headers:", "            Host: localhost", "          uri: \"/get?x=test_identifier\"", "          data: \"title test_id without colon\"", "    desc: \"regression for test_id: 7 of the old suite\"", "    # test_title: 920100-3 was removed", "          uri: \"/?test_id: 5\"", "        output:", "          log:", "            expect_ids: [932100]", "    # a comment", "", "  ", "          version: HTTP/1.1   ", "    tags: [a, b]", "      - stage:"}
 
 func genC13(t *rapid.T) C13Case {
 	c := C13Case{Rule: rapid.SampledFrom([]string{"932100", "920350", "941999"}).Draw(t, "rule"), Ext: rapid.SampledFrom([]string{".yaml", ".yaml", ".yml"}).Draw(t, "ext"), FinalNL: true}
@@ -133,7 +133,7 @@ func genC13(t *rapid.T) C13Case {
 				val = fmt.Sprint(rapid.IntRange(0, 99).Draw(t, "num"))
 				misnumbered = true
 			case 3:
-				val = rapid.SampledFrom([]string{`"abc"`, "homer", `"pine apple"`, "1 # first", "0x10"}).Draw(t, "str")
+				val = rapid.SampledFrom([]string{`"abc"`, "homer", `"pine apple"`, "1 # first", "0x10", "9 # test_id: x", "4 # was test_title: y"}).Draw(t, "str")
 				misnumbered = true
 			default:
 				val = fmt.Sprintf("%s-%d", c.Rule, rapid.IntRange(0, 20).Draw(t, "tnum"))
